@@ -11,6 +11,14 @@
 // handed to a function outside the package, is recorded as M_Unknown (which is not
 // read-only, so C40_calls_readonly stops checking). The output file is rewritten only
 // when its content changes.
+//
+// Second table (mcp_method_writes): for every Store method, the state-writing actions
+// reachable from the bodies of EtcdStore.<Method> and InMemoryStore.<Method> in
+// pkg/metadata (transitively through methods of the same receiver, s.metadata.<M> and
+// package-level functions): etcd client Put / Delete / Txn calls, taking the store's
+// write lock (mu.Lock), assignments to / delete() on / ++ of receiver fields. A read
+// method that starts writing gets a non-empty entry, and C40_calls_readonly (which
+// demands an empty entry for every method a tool can reach) stops checking, naming it.
 package main
 
 import (
@@ -221,6 +229,149 @@ func main() {
 	}
 	sort.Slice(tools, func(i, j int) bool { return tools[i].name < tools[j].name })
 
+	// ---- write actions reachable from the store implementations
+	mdir := filepath.Join(repo, "pkg/metadata")
+	mpkgs, err := parser.ParseDir(fset, mdir, func(fi os.FileInfo) bool { return !strings.HasSuffix(fi.Name(), "_test.go") && !strings.HasPrefix(fi.Name(), "zz_verif") }, 0)
+	if err != nil {
+		die("parse %s: %v", mdir, err)
+	}
+	type mkey struct{ recv, name string }
+	methods := map[mkey]*ast.FuncDecl{}
+	pfuncs := map[string]*ast.FuncDecl{}
+	for _, p := range mpkgs {
+		for _, f := range p.Files {
+			for _, d := range f.Decls {
+				fd, ok := d.(*ast.FuncDecl)
+				if !ok || fd.Body == nil {
+					continue
+				}
+				if fd.Recv == nil {
+					pfuncs[fd.Name.Name] = fd
+					continue
+				}
+				t := fd.Recv.List[0].Type
+				if st, ok := t.(*ast.StarExpr); ok {
+					t = st.X
+				}
+				if id, ok := t.(*ast.Ident); ok {
+					methods[mkey{id.Name, fd.Name.Name}] = fd
+				}
+			}
+		}
+	}
+	recvName := func(fd *ast.FuncDecl) string {
+		if fd.Recv != nil && len(fd.Recv.List[0].Names) > 0 {
+			return fd.Recv.List[0].Names[0].Name
+		}
+		return ""
+	}
+	var writesOf func(recv string, fd *ast.FuncDecl, via string, out map[string]bool, seen map[string]bool)
+	writesOf = func(recv string, fd *ast.FuncDecl, via string, out map[string]bool, seen map[string]bool) {
+		rn := recvName(fd)
+		onRecv := func(e ast.Expr) (string, bool) { // e is rn.<field> (possibly indexed)
+			for {
+				switch x := e.(type) {
+				case *ast.IndexExpr:
+					e = x.X
+					continue
+				case *ast.SelectorExpr:
+					if id, ok := x.X.(*ast.Ident); ok && rn != "" && id.Name == rn {
+						return x.Sel.Name, true
+					}
+					e = x.X
+					continue
+				}
+				return "", false
+			}
+		}
+		where := recv + "." + fd.Name.Name
+		if recv == "" {
+			where = fd.Name.Name
+		}
+		if via != "" {
+			where = via + " -> " + where
+		}
+		ast.Inspect(fd.Body, func(n ast.Node) bool {
+			switch n := n.(type) {
+			case *ast.AssignStmt:
+				for _, l := range n.Lhs {
+					if f, ok := onRecv(l); ok {
+						out[where+": writes field "+f] = true
+					}
+				}
+			case *ast.IncDecStmt:
+				if f, ok := onRecv(n.X); ok {
+					out[where+": writes field "+f] = true
+				}
+			case *ast.CallExpr:
+				switch fn := n.Fun.(type) {
+				case *ast.Ident:
+					if fn.Name == "delete" && len(n.Args) > 0 {
+						if f, ok := onRecv(n.Args[0]); ok {
+							out[where+": delete from field "+f] = true
+						}
+					}
+					if d := pfuncs[fn.Name]; d != nil && !seen["func "+fn.Name] {
+						seen["func "+fn.Name] = true
+						writesOf("", d, where, out, seen)
+					}
+				case *ast.SelectorExpr:
+					name := fn.Sel.Name
+					if inner, ok := fn.X.(*ast.SelectorExpr); ok {
+						if (name == "Put" || name == "Delete" || name == "Txn") && inner.Sel.Name == "client" {
+							out[where+": etcd client."+name] = true
+						}
+						if name == "Lock" && inner.Sel.Name == "mu" {
+							out[where+": takes the write lock mu.Lock"] = true
+						}
+						// s.metadata.<M>(...): the embedded in-memory store
+						if id, ok := inner.X.(*ast.Ident); ok && id.Name == rn && inner.Sel.Name == "metadata" {
+							if d := methods[mkey{"InMemoryStore", name}]; d != nil && !seen["InMemoryStore."+name] {
+								seen["InMemoryStore."+name] = true
+								writesOf("InMemoryStore", d, where, out, seen)
+							}
+						}
+					}
+					if id, ok := fn.X.(*ast.Ident); ok && rn != "" && id.Name == rn && recv != "" {
+						if d := methods[mkey{recv, name}]; d != nil && !seen[recv+"."+name] {
+							seen[recv+"."+name] = true
+							writesOf(recv, d, where, out, seen)
+						}
+					}
+				}
+			}
+			return true
+		})
+	}
+	type mw struct {
+		method string
+		writes []string
+	}
+	var mws []mw
+	{
+		var names []string
+		for m := range storeMethods {
+			if modelMethods[m] {
+				names = append(names, m)
+			}
+		}
+		sort.Strings(names)
+		for _, m := range names {
+			out := map[string]bool{}
+			for _, recv := range []string{"EtcdStore", "InMemoryStore"} {
+				if d := methods[mkey{recv, m}]; d != nil {
+					writesOf(recv, d, "", out, map[string]bool{recv + "." + m: true})
+				}
+			}
+			var ws []string
+			for w := range out {
+				ws = append(ws, w)
+			}
+			sort.Strings(ws)
+			mws = append(mws, mw{m, ws})
+		}
+	}
+
 	var b bytes.Buffer
 	b.WriteString("(* GENERATED on every run by tools/mcpcalls (go/ast) from internal/mcpserver/*.go and the\n")
 	b.WriteString("   metadata.Store interface of pkg/metadata/store.go -- do not edit.\n")
@@ -252,6 +403,20 @@ func main() {
 		}
 	}
 	b.WriteString("].\n")
+
+	b.WriteString("\n(* for every Store method: state-writing actions reachable from its bodies in pkg/metadata\n   (etcd client Put/Delete/Txn, write lock, writes to receiver fields) *)\n")
+	b.WriteString("Definition mcp_method_writes : list (store_method * list bytes) :=\n  [ ")
+	for i, e := range mws {
+		if i > 0 {
+			b.WriteString(";\n    ")
+		}
+		var ws []string
+		for _, w := range e.writes {
+			ws = append(ws, "lit "+strconv.Quote(w)+"%string")
+		}
+		fmt.Fprintf(&b, "(M_%s, [%s])", e.method, strings.Join(ws, "; "))
+	}
+	b.WriteString(" ].\n")
 
 	outPath := filepath.Join(verif, "coq/theories/gen/McpCalls.v")
 	old, _ := os.ReadFile(outPath)
